@@ -30,6 +30,7 @@ fn streams(t: Tier) -> Vec<StreamDef> {
         st("big", t.n(320, 8000, 0, 320), false),
         st("reveal", t.n(20_000, 1_000_000, 32, 8_000), false),
         st("vendor_grid", t.n(wire::VENDOR_GRID, wire::VENDOR_GRID, 0, wire::VENDOR_GRID), true),
+        st("lead_grid", t.n(wire::LEAD_GRID, wire::LEAD_GRID, 40, wire::LEAD_GRID), true),
         st("dict_grid", t.n(wire::dict_grid_count(), wire::dict_grid_count(), 40, wire::dict_grid_count().min(200_000)).min(wire::dict_grid_count()), wire::dict_grid_exhaustive(t == Tier::Quick || t == Tier::Thorough)),
     ]
 }
@@ -223,6 +224,12 @@ fn run(ctx: &mut Ctx) {
         "vendor_grid" => {
             let idx = ctx.idx;
             let b = wire::vendor_grid_case(&mut ctx.rng, idx);
+            judge_msg(ctx, &b, Some(SOpts::from_index((idx % 8) as u8)));
+            judge_avps(ctx, &b[12..]);
+        }
+        "lead_grid" => {
+            let idx = ctx.idx;
+            let b = wire::lead_grid_case(&mut ctx.rng, idx);
             judge_msg(ctx, &b, Some(SOpts::from_index((idx % 8) as u8)));
             judge_avps(ctx, &b[12..]);
         }
